@@ -130,6 +130,7 @@ type verifWSim struct {
 	badReq    []string
 	quiet     bool
 	nreqTotal int
+	free      *verifWFree // non-nil: free-running mode (zz_verifw_run_test.go), no scripted polls
 }
 
 func verifWNewSim(gov string) *verifWSim {
@@ -266,6 +267,15 @@ func (s *verifWSim) serveCount(w http.ResponseWriter, addr string) {
 	if addr != s.gov {
 		s.badReq = append(s.badReq, "event count requested for contract "+addr+" (not the configured governance contract)")
 	}
+	if s.free != nil {
+		s.free.countReqs++
+		if !s.free.first {
+			s.free.first = true
+			close(s.free.started)
+		}
+		verifWJSON(w, int32(s.visible))
+		return
+	}
 	if s.script == nil {
 		if s.awaitIdle {
 			s.awaitIdle = false
@@ -313,6 +323,31 @@ func (s *verifWSim) servePage(w http.ResponseWriter, addr string, startS string)
 		return
 	}
 	start := int(start64)
+	if s.free != nil {
+		f := s.free
+		f.pageReqs++
+		if f.landEvery > 0 && f.pageReqs%f.landEvery == 0 && s.visible < len(s.log) {
+			s.visible++ // an event lands between the count request and this page request
+		}
+		if start < 0 {
+			start = 0
+		}
+		end := start + f.pageSize
+		if end > s.visible {
+			end = s.visible
+		}
+		evs := []interface{}{}
+		for i := start; i < end; i++ {
+			e := s.log[i]
+			evs = append(evs, map[string]interface{}{"blockHash": e.blk.hash, "txId": verifWTxId(e.tx), "eventIndex": e.index, "fields": e.fields})
+		}
+		next := start
+		if end > start {
+			next = end
+		}
+		verifWJSON(w, map[string]interface{}{"events": evs, "nextStart": next})
+		return
+	}
 	ps := s.cur
 	if ps == nil {
 		if !s.quiet {
